@@ -10,10 +10,11 @@ analyzer arrays rebuilt pair by pair with fresh calls of the public functions.
 """
 import numpy as np
 from common import Case, Failure, flist, parse_flist, clist, parse_clist, call, close_vec
+import ar_fam
 
 PID = 'C12'
 LEAN_TARGETS = ['Nitime.Props.C12']
-RULE = ('GrangerAnalyzer objects are re-targeted with set_input (same shape / other length / other rate / other channel count) after reading model-derived or causality attributes, and every array / axis read afterwards is judged against the NEW input (the model is fed fresh fit_model results of the input current at each step); every routine is also run in call sequences on the same argument objects (>=3 evaluations in mixed order, results scribbled over, arrays refilled in place; C12: several live analyzers read in interleaved order); cases from one PRNG state: stable bivariate VAR models of order 1..6 (companion spectral radius 0.3..0.92), '
+RULE = ('session 3: coefficient / covariance / transfer-function / spectral arrays also as float32, complex64, integer (covariance, nilpotent integer coefficients), big-endian, Fortran-ordered, strided and read-only arrays; n_freqs left at its default; innovation covariances of scale 1e-140..1e140 judged against the same model with the covariance scaled by an exact power of two; poles at radius 0.99 / 0.997; analyzers with criterion-selected order (max_order, criterion given), explicit order with a smaller / None max_order, grids of 1..3 points, default n_freqs, integer / float32 / strided / F-ordered recordings; a perturbation phase (other options, subclass analyzers, results overwritten) followed by a re-run of a sample of the cases on fresh objects; GrangerAnalyzer objects are re-targeted with set_input (same shape / other length / other rate / other channel count) after reading model-derived or causality attributes, and every array / axis read afterwards is judged against the NEW input (the model is fed fresh fit_model results of the input current at each step); every routine is also run in call sequences on the same argument objects (>=3 evaluations in mixed order, results scribbled over, arrays refilled in place; C12: several live analyzers read in interleaved order); cases from one PRNG state: stable bivariate VAR models of order 1..6 (companion spectral radius 0.3..0.92), '
         'with and without zeroed cross-couplings, diagonal and correlated positive-definite innovation covariances, '
         'n_freqs of both parities; covariance scales 1e-12..1e4; analyzer runs on simulated 3..4-channel data with explicit ij lists in random order, '
         'reversed pairs and the default list; distinct = distinct protocol line')
@@ -72,6 +73,35 @@ def aflat(a):
     return flist(np.asarray(a, dtype=float).reshape(-1))
 
 
+def a_of(m):
+    """coefficient matrices as the implementation receives them (representation m['dt'])"""
+    return ar_fam.variant(np.array(parse_flist(m['a'])).reshape(m['P'], 2, 2), m.get('dt'))
+
+
+def cov_of(m):
+    return ar_fam.variant(np.array(parse_flist(m['cov'])).reshape(2, 2), m.get('dtc'))
+
+
+def tolf(m):
+    return ar_fam.tol_factor(m.get('dt'), m.get('dtc'), m.get('dth'), m.get('dts'))
+
+
+def nf_kw(m):
+    """n_freqs given or left at its default (1024)"""
+    return {} if m.get('nf_default') else {'n_freqs': m['nf']}
+
+
+def fit_kw(m):
+    """order / max_order / criterion options of the analyzer (= of fit_model)"""
+    kw = {'order': None if m['order'] is None or m['order'] < 0 else m['order']}
+    if 'maxo' in m:
+        kw['max_order'] = None if m['maxo'] is None or m['maxo'] < 0 else m['maxo']
+    if m.get('crit'):
+        import nitime.utils as ut
+        kw['criterion'] = {'bic': ut.bayesian_information_criterion, 'aic': ut.akaike_information_criterion}[m['crit']]
+    return kw
+
+
 # ------------------------------------------------------------------ implementation adapter
 def m2(M):
     return ' '.join(clist(M[i, j]) for i in (0, 1) for j in (0, 1))
@@ -91,23 +121,23 @@ def run_impl(m):
             return 'ok %s %s %s %s' % (flist(np.real(fx2y)), flist(np.real(fy2x)), flist(np.real(fxy)), m2(Sw))
         return call(f)
     if op in ('tf', 'sm', 'gc'):
-        a = np.array(parse_flist(m['a'])).reshape(m['P'], 2, 2)
-        nf = m['nf']
+        a = a_of(m)
         if op == 'tf':
             def f():
-                w, Hw = ar.transfer_function_xy(a, n_freqs=nf)
+                w, Hw = ar.transfer_function_xy(a, **nf_kw(m))
                 return 'ok %s %s' % (flist(w), m2(Hw))
             return call(f)
-        cov = np.array(parse_flist(m['cov'])).reshape(2, 2)
+        cov = cov_of(m)
         if op == 'sm':
             def f():
-                w, Hw = ar.transfer_function_xy(a, n_freqs=nf)
-                Sw = ar.spectral_matrix_xy(Hw, cov)
-                return 'ok %s %s %s' % (m2(Sw), flist(ar.coherence_from_spectral(Sw)), flist(ar.interdependence_xy(Sw)))
+                w, Hw = ar.transfer_function_xy(a, **nf_kw(m))
+                Sw = ar.spectral_matrix_xy(ar_fam.variant(Hw, m.get('dth')), cov)
+                Sv = ar_fam.variant(Sw, m.get('dts'))
+                return 'ok %s %s %s' % (m2(Sw), flist(ar.coherence_from_spectral(Sv)), flist(ar.interdependence_xy(Sv)))
             return call(f)
 
         def f():
-            w, fx2y, fy2x, fxy, Sw = ar.granger_causality_xy(a, cov, n_freqs=nf)
+            w, fx2y, fy2x, fxy, Sw = ar.granger_causality_xy(a, cov, **nf_kw(m))
             return 'ok %s %s %s %s' % (flist(np.real(fx2y)), flist(np.real(fy2x)), flist(np.real(fxy)), m2(Sw))
         return call(f)
     if op == 'ana':
@@ -133,9 +163,9 @@ def run_impl(m):
 
 def analyzer(m):
     _, gr, ts = mods()
-    data = np.array(parse_flist(m['data'])).reshape(m['nproc'], -1)
+    data = ar_fam.variant(np.array(parse_flist(m['data'])).reshape(m['nproc'], -1), m.get('dt'))
     ij = None if m['ij'] is None else [tuple(p) for p in m['ij']]
-    return gr.GrangerAnalyzer(ts.TimeSeries(data, sampling_rate=m['Fs']), ij=ij, order=m['order'], n_freqs=m['nf'])
+    return gr.GrangerAnalyzer(ts.TimeSeries(data, sampling_rate=m['Fs']), ij=ij, **dict(fit_kw(m), **nf_kw(m)))
 
 
 READ_TOK = {'causality_xy': 'Rxy', 'causality_yx': 'Ryx', 'simultaneous_causality': 'Rsim', 'frequencies': 'Rf',
@@ -160,8 +190,8 @@ def run_anaseq(m):
     import warnings
     warnings.simplefilter('ignore')
     _, gr, ts = mods()
-    inputs = [ts.TimeSeries(step_data(st), sampling_rate=st['Fs']) for st in m['steps']]
-    G = gr.GrangerAnalyzer(inputs[0], ij=None if m['ij'] is None else [tuple(q) for q in m['ij']], order=m['order'], n_freqs=m['nf'])
+    inputs = [ts.TimeSeries(ar_fam.variant(step_data(st), st.get('dt')), sampling_rate=st['Fs']) for st in m['steps']]
+    G = gr.GrangerAnalyzer(inputs[0], ij=None if m['ij'] is None else [tuple(q) for q in m['ij']], n_freqs=m['nf'], **fit_kw(m))
     toks = []
     for k, st in enumerate(m['steps']):
         if k:
@@ -182,7 +212,7 @@ def line_of(m):
             data = step_data(st)
             prs = []
             for (i, j) in step_ij(m, st):          # fitting is C11: fresh fit_model results of THIS input
-                o, Rxx, co, ec = gr.fit_model(data[i], data[j], order=m['order'])
+                o, Rxx, co, ec = gr.fit_model(data[i], data[j], **fit_kw(m))
                 co = np.asarray(co)
                 prs.append('%d:%d:%d:%s:%s' % (i, j, co.shape[0], aflat(co), aflat(ec)))
             from common import f2x
@@ -201,9 +231,12 @@ def line_of(m):
     if op == 'ana':
         G = analyzer(m)
         toks = []
-        for (i, j) in G.ij:
-            co = np.asarray(G.model_coef[i, j])
-            toks.append('%d:%d:%d:%s:%s' % (i, j, co.shape[0], aflat(co), aflat(G.error_cov[i, j])))
+        try:
+            for (i, j) in G.ij:
+                co = np.asarray(G.model_coef[i, j])
+                toks.append('%d:%d:%d:%s:%s' % (i, j, co.shape[0], aflat(co), aflat(G.error_cov[i, j])))
+        except Exception:  # noqa  (the analyzer cannot fit its pairs: the case then disagrees / is judged as 'raises')
+            toks = []
         return 'C12 ana %d %d %s' % (m['nproc'], m['nf'], ' '.join(toks))
 
 
@@ -224,7 +257,7 @@ def cmp_groups(kinds, rtol=1e-9, atol=1e-300):
                 if xa.shape != ya.shape or not np.array_equal(np.isnan(xa), np.isnan(ya)):
                     return False
                 ok = ~np.isnan(xa)
-                if ok.any() and np.abs(xa[ok] - ya[ok]).max() > 1e-9 * max(1.0, np.abs(xa[ok]).max()):
+                if ok.any() and np.abs(xa[ok] - ya[ok]).max() > rtol * max(1.0, np.abs(xa[ok]).max()):
                     return False
             else:
                 if not close_vec(parse_flist(x), parse_flist(y), rtol, atol):
@@ -274,6 +307,7 @@ def judge_value(m, impl, clause):
         nb = m['nf'] // 2 + 1
         cov = np.array(parse_flist(m['cov'])).reshape(2, 2) if 'cov' in m else None
         w_impl = ar.transfer_function_xy(a, n_freqs=m['nf'])[0]
+        tf_ = tolf(m)
     if op == 'tf':
         w = np.array(parse_flist(g[0]))
         H = unpack_m2(g[1:5])
@@ -282,7 +316,7 @@ def judge_value(m, impl, clause):
         A, Hd, _ = dense(a, None, w)
         err = max(np.abs(H[k].dot(A[k]) - np.eye(2)).max() for k in range(nb))
         cond = max(np.linalg.cond(Ak) for Ak in A)
-        if err > 1e-9 * max(1.0, cond):
+        if err > 1e-9 * tf_ * max(1.0, cond):
             return fail('inverse', 'max |H(w)A(w) - I| = %.3g on the returned grid (cond %.3g)' % (err, cond))
         return None
     if op == 'sm':
@@ -291,17 +325,17 @@ def judge_value(m, impl, clause):
         idp = np.array(parse_flist(g[5]))
         A, H, Sd = dense(a, cov, w_impl)
         sc = np.abs(Sd).max()
-        if np.abs(S - Sd).max() > 1e-9 * sc:
+        if np.abs(S - Sd).max() > 1e-9 * tf_ * sc:
             return fail('HSigmaHH', 'spectral matrix differs from dense H·Σ·Hᴴ by %.3g (scale %.3g)' % (np.abs(S - Sd).max(), sc))
-        if np.abs(S - S.conj().transpose(0, 2, 1)).max() > 1e-9 * sc:
+        if np.abs(S - S.conj().transpose(0, 2, 1)).max() > 1e-9 * tf_ * sc:
             return fail('hermitian', 'spectral matrix not Hermitian')
         ev = np.array([np.linalg.eigvalsh((Sk + Sk.conj().T) / 2).min() for Sk in S])
-        if ev.min() < -1e-9 * sc:
+        if ev.min() < -1e-9 * tf_ * sc:
             return fail('psd', 'negative eigenvalue %.3g' % ev.min())
         cw = np.abs(Sd[:, 0, 1]) ** 2 / (Sd[:, 0, 0].real * Sd[:, 1, 1].real)
-        if np.abs(coh - cw).max() > 1e-9:
+        if np.abs(coh - cw).max() > 1e-9 * tf_:
             return fail('coherence', 'coherence differs from |Sxy|²/(Sxx Syy) by %.3g' % np.abs(coh - cw).max())
-        if np.abs(idp + np.log(1 - cw)).max() > 1e-9 * max(1.0, np.abs(idp).max()):
+        if np.abs(idp + np.log(1 - cw)).max() > 1e-9 * tf_ * max(1.0, np.abs(idp).max()):
             return fail('interdependence', 'interdependence differs from -log(1-coh)')
         return None
     if op == 'gc':
@@ -310,31 +344,36 @@ def judge_value(m, impl, clause):
         A, H, Sd = dense(a, cov, w_impl)
         ex2y, ey2x, exy, tot, _ = geweke(H, cov)
         sc = np.abs(Sd).max()
-        if np.abs(S - Sd).max() > 1e-9 * sc:
+        if np.abs(S - Sd).max() > 1e-9 * tf_ * sc:
             return fail('S-same', 'returned spectral matrix differs from H·Σ·Hᴴ by %.3g' % np.abs(S - Sd).max())
         S2 = ar.spectral_matrix_xy(ar.transfer_function_xy(a, n_freqs=m['nf'])[1], cov).transpose(2, 0, 1)
-        if np.abs(S - S2).max() > 1e-9 * sc:
+        if np.abs(S - S2).max() > 1e-9 * tf_ * sc:
             return fail('S-same-routines', 'granger_causality_xy and spectral_matrix_xy report different spectral matrices')
         for nm, got, want in (('x2y', fx2y, ex2y), ('y2x', fy2x, ey2x), ('xy', fxy, exy)):
             if not np.all(np.isfinite(got)):
                 return fail(nm + '-nonfinite', 'non-finite causality values')
-            if np.abs(got - want).max() > 1e-8 * max(1.0, np.abs(want).max()):
+            if np.abs(got - want).max() > 1e-8 * tf_ * max(1.0, np.abs(want).max()):
                 return fail(nm + '-value', 'f_%s differs from its definition by %.3g' % (nm, np.abs(got - want).max()))
-        if min(fx2y.min(), fy2x.min()) < -1e-10:
+        if min(fx2y.min(), fy2x.min()) < -1e-10 * tf_:
             return fail('nonneg', 'negative directional causality %.3g' % min(fx2y.min(), fy2x.min()))
         coh = ar.coherence_from_spectral(S.transpose(1, 2, 0))
-        if np.abs(fx2y + fy2x + fxy + np.log(1 - coh)).max() > 1e-8 * max(1.0, np.abs(tot).max()):
+        if np.abs(fx2y + fy2x + fxy + np.log(1 - coh)).max() > 1e-8 * tf_ * max(1.0, np.abs(tot).max()):
             return fail('decomposition', 'f_x2y + f_y2x + f_xy differs from -log(1-coherence) by %.3g' % np.abs(fx2y + fy2x + fxy + np.log(1 - coh)).max())
         # relabelling the channels swaps the directions
         Pm = np.array([[0.0, 1.0], [1.0, 0.0]])
         a_sw = np.array([Pm.dot(ak).dot(Pm) for ak in a])
         _, sx2y, sy2x, sxy, _ = ar.granger_causality_xy(a_sw, Pm.dot(cov).dot(Pm), n_freqs=m['nf'])
-        tol = 1e-8 * max(1.0, np.abs(tot).max())
+        tol = 1e-8 * tf_ * max(1.0, np.abs(tot).max())
+        if 'pow2' in m:     # Σ·2^k (exact): the three measures are unchanged, S scales by 2^k
+            _, q1, q2, q3, Sq = ar.granger_causality_xy(a_of(m), cov_of(m) * 2.0 ** m['pow2'], n_freqs=m['nf'])
+            if max(np.abs(q1 - fx2y).max(), np.abs(q2 - fy2x).max(), np.abs(q3 - fxy).max()) > tol or \
+                    np.abs(Sq.transpose(2, 0, 1) / 2.0 ** m['pow2'] - S).max() > 1e-9 * sc:
+                return fail('scale-invariance', 'innovation covariance scaled by 2^%d changes the causality spectra' % m['pow2'])
         if np.abs(sx2y - fy2x).max() > tol or np.abs(sy2x - fx2y).max() > tol or np.abs(sxy - fxy).max() > tol:
             return fail('relabel', 'relabelling the channels does not swap the two directions')
-        if m.get('zero') in ('xy', 'both') and np.abs(fy2x).max() > 1e-10:
+        if m.get('zero') in ('xy', 'both') and np.abs(fy2x).max() > 1e-10 * tf_:
             return fail('no-coupling', 'a[:,0,1] = 0 but f_y2x = %.3g' % np.abs(fy2x).max())
-        if m.get('zero') in ('yx', 'both') and np.abs(fx2y).max() > 1e-10:
+        if m.get('zero') in ('yx', 'both') and np.abs(fx2y).max() > 1e-10 * tf_:
             return fail('no-coupling', 'a[:,1,0] = 0 but f_x2y = %.3g' % np.abs(fx2y).max())
         return None
     if op == 'afreq':
@@ -367,7 +406,7 @@ def judge_value(m, impl, clause):
                 if want is None:       # definitions, written directly, on fresh fits of the CURRENT data
                     want = [np.full((n, n, nb), np.nan) for _ in range(3)]
                     for (i, j) in step_ij(m, st):
-                        o, Rxx, coef, ecov = gr.fit_model(data[i], data[j], order=m['order'])
+                        o, Rxx, coef, ecov = gr.fit_model(data[i], data[j], **fit_kw(m))
                         w = ar.transfer_function_xy(coef, n_freqs=m['nf'])[0]
                         A, H, Sd = dense(np.asarray(coef), np.asarray(ecov), w)
                         ex2y, ey2x, exy, tot, _ = geweke(H, np.asarray(ecov))
@@ -399,18 +438,18 @@ def judge_value(m, impl, clause):
         arrs = [np.array(parse_flist(t)).reshape(n, n, -1) for t in g[0:3]]
         if arrs[0].shape[2] != nb:
             return fail('shape', 'arrays have %d bins, expected %d' % (arrs[0].shape[2], nb))
-        data = np.array(parse_flist(m['data'])).reshape(n, -1)
+        data = ar_fam.variant(np.array(parse_flist(m['data'])).reshape(n, -1), m.get('dt'))
         ij = [tuple(p) for p in m['ij']] if m['ij'] is not None else [(i, j) for j in range(n) for i in range(j)]
         want = [np.full((n, n, nb), np.nan) for _ in range(3)]
         for (i, j) in ij:
-            order, Rxx, coef, ecov = gr.fit_model(data[i], data[j], order=m['order'])
+            order, Rxx, coef, ecov = gr.fit_model(data[i], data[j], **fit_kw(m))
             w, fx2y, fy2x, fxy, Sw = ar.granger_causality_xy(coef, ecov, n_freqs=m['nf'])
             want[0][i, j], want[1][i, j], want[2][i, j] = fx2y, fy2x, fxy
         for nm, got, wt in zip(('xy', 'yx', 'sim'), arrs, want):
             if not np.array_equal(np.isnan(got), np.isnan(wt)):
                 return fail('placement-' + nm, 'causality_%s is filled at the wrong index pairs' % nm)
             ok = ~np.isnan(wt)
-            if ok.any() and np.abs(got[ok] - wt[ok]).max() > 1e-9 * max(1.0, np.abs(wt[ok]).max()):
+            if ok.any() and np.abs(got[ok] - wt[ok]).max() > 1e-9 * ar_fam.tol_factor(m.get('dt')) * max(1.0, np.abs(wt[ok]).max()):
                 return fail('values-' + nm, 'causality_%s[i,j] differs from the pairwise function result' % nm)
         # frequency axis: bin k of the spectra is at w_k·Fs/2π on the grid the functions return
         fr = np.asarray(G.frequencies)
@@ -424,12 +463,12 @@ def judge_value(m, impl, clause):
     return None
 
 
-def pair_results(data, ij, order, nf):
+def pair_results(data, ij, order, nf, kw=None):
     """what the analyzer must hold for these pairs, from fresh calls of the public functions"""
     ar, gr, ts = mods()
     out = {}
     for (i, j) in ij:
-        o, Rxx, coef, ecov = gr.fit_model(data[i], data[j], order=order)
+        o, Rxx, coef, ecov = gr.fit_model(data[i], data[j], **(kw or {'order': order}))
         w, fx2y, fy2x, fxy, Sw = ar.granger_causality_xy(coef, ecov, n_freqs=nf)
         out[(i, j)] = (fx2y, fy2x, fxy, Sw)
     return out
@@ -449,8 +488,8 @@ def sequence_judge(m, clause):
                        {'meta': m, 'clause': clause})
     syms = []
     if op in ('tf', 'sm', 'gc', 'gcs'):
-        a = np.array(parse_flist(m['a'])).reshape(m['P'], 2, 2)
-        cov = np.array(parse_flist(m['cov'])).reshape(2, 2) if 'cov' in m else np.array([[1.0, 0.3], [0.3, 0.8]])
+        a = a_of(m)
+        cov = cov_of(m) if 'cov' in m else np.array([[1.0, 0.3], [0.3, 0.8]])
         nf = m['nf']
         rt = {'tf': lambda: ar.transfer_function_xy(a, n_freqs=nf),
               'sm': lambda: ar.spectral_matrix_xy(ar.transfer_function_xy(a, n_freqs=nf)[1], cov),
@@ -472,12 +511,16 @@ def sequence_judge(m, clause):
         specs = [(data, m['ij']),
                  (data[::-1, ::-1].copy() * 0.5 + 0.01, [list(p) for p in allp]),          # overlapping pairs, other data
                  (np.roll(data, 3, axis=1) * 2.0, [list(p) for p in allp[::2]])]
+        kwf = fit_kw(m)
         mk = lambda d, ij: gr.GrangerAnalyzer(ts.TimeSeries(d, sampling_rate=m['Fs']), ij=None if ij is None else [tuple(p) for p in ij],
-                                              order=order, n_freqs=nf)
-        live = [mk(d, ij) for d, ij in specs]
-        want = [pair_results(specs[0][0], ijA, order, nf),
-                pair_results(specs[1][0], allp, order, nf),
-                pair_results(specs[2][0], allp[::2], order, nf)]
+                                              n_freqs=nf, **kwf)
+        try:
+            live = [mk(d, ij) for d, ij in specs]
+            want = [pair_results(specs[0][0], ijA, order, nf, kwf),
+                    pair_results(specs[1][0], allp, order, nf, kwf),
+                    pair_results(specs[2][0], allp[::2], order, nf, kwf)]
+        except ValueError:          # a criterion-selected order that does not converge on the derived data: nothing to interleave
+            return None
         nb = nf // 2 + 1
 
         def check(k, attr):
@@ -602,6 +645,142 @@ def cases(rng, tier, seed):
         m = {'op': 'anaseq', 'nf': int(nrng.choice([16, 33])), 'order': int(nrng.randint(1, 4)), 'ij': ij, 'steps': steps}
         kinds_of_reads = ''.join('f' if a == 'frequencies' else 'l' for st in steps for a in st['reads'] if READ_TOK[a] != 'Rm')
         out.append(mk_case(m, 'analyzer/retarget/' + '+'.join(st['kind'] for st in steps[1:]), cmp_groups(kinds_of_reads)))
+    out += session3_cases(nrng, big)
+    out += rerun_cases(nrng, out, big)
+    return out
+
+
+# ------------------------------------------------------------------ session 3: input families, options, boundaries, histories
+def session3_cases(nrng, big):
+    out = []
+    reps = 1 if not big else 6
+    for rep in range(reps):
+        # --- L1: coefficient / covariance / transfer-function / spectral arrays in other representations
+        fam = [('float32', 'float32', None, None), (None, 'int64', None, None), ('F', 'F', 'F', 'F'), ('strided', 'rowstrided', 'strided', 'readonly'),
+               ('readonly', 'readonly', 'readonly', 'strided'), ('bigendian', 'bigendian', None, None), ('rowstrided', None, 'complex64', 'complex64'),
+               ('int64', None, None, None)]
+        for (ka, kc, kh, ks) in fam:
+            P = int(nrng.randint(1, 6))
+            a = stable_var(nrng, P, float(nrng.uniform(0.3, 0.85)), [None, 'xy', 'yx'][rep % 3] if ka != 'int64' else None)
+            if ka == 'int64':
+                a = np.zeros((P, 2, 2))
+                a[0] = [[0.0, 0.0], [1.0, 0.0]]         # y[t] = -x[t-1] + e: integer coefficients, stable (nilpotent companion)
+            elif ka:
+                a = ar_fam.prepare(a, ka)
+            cov = np.array([[2.0, 1.0], [1.0, 3.0]]) if kc == 'int64' else gen_cov(nrng, 'full')
+            if kc and kc != 'int64':
+                cov = ar_fam.prepare(cov, kc)
+                cov = (cov + cov.T) / 2
+            nf = int(nrng.choice([2, 3, 8, 9, 16]))
+            par = 'odd' if nf % 2 else 'even'
+            lp = ar_fam.tol_factor(ka, kc, kh, ks)
+            base = {'P': P, 'nf': nf, 'a': aflat(a), 'zero': None, 'dt': ka, 'dtc': kc}
+            tag = '%s+%s' % (ka or 'f8', kc or 'f8')
+            out.append(mk_case(dict(base, op='tf'), 'transfer/dtype/' + tag, cmp_groups('fcccc', rtol=1e-9 * lp)))
+            out.append(mk_case(dict(base, op='sm', cov=aflat(cov), dth=kh, dts=ks), 'spectral/dtype/%s/%s+%s' % (tag, kh or 'c16', ks or 'c16'),
+                               cmp_groups('ccccfl', rtol=1e-9 * lp, atol=1e-300 if lp == 1 else 1e-6)))
+            out.append(mk_case(dict(base, op='gc', cov=aflat(cov)), 'granger/dtype/' + tag, cmp_groups('lllcccc', rtol=1e-9 * lp)))
+        # --- L3: n_freqs left at its default; L4: innovation covariances of scale 1e-140 / 1e140 (the measures are homogeneous of
+        #     degree 0 in Σ), models with poles close to the unit circle
+        P = int(nrng.randint(1, 4))
+        a = stable_var(nrng, P, 0.7)
+        cov = gen_cov(nrng, 'full')
+        base = {'P': P, 'nf': 1024, 'nf_default': True, 'a': aflat(a), 'zero': None}
+        out.append(mk_case(dict(base, op='tf'), 'transfer/n_freqs-default', cmp_groups('fcccc')))
+        out.append(mk_case(dict(base, op='gc', cov=aflat(cov)), 'granger/n_freqs-default', cmp_groups('lllcccc')))
+        for sc, pw in [(1e-140, 400), (1e140, -400), (1e-60, 150), (1e75, -200)]:
+            P = int(nrng.randint(1, 6))
+            a = stable_var(nrng, P, float(nrng.uniform(0.3, 0.9)))
+            cov = gen_cov(nrng, 'full' if pw % 100 == 0 else 'diag') * sc
+            nf = int(nrng.choice([4, 9, 16]))
+            base = {'P': P, 'nf': nf, 'a': aflat(a), 'zero': None, 'cov': aflat(cov), 'pow2': pw}
+            out.append(mk_case(dict(base, op='sm'), 'spectral/amplitude', cmp_groups('ccccfl', atol=0.0)))
+            out.append(mk_case(dict(base, op='gc'), 'granger/amplitude', cmp_groups('lllcccc', atol=0.0)))
+        for rho in (0.99, 0.997):
+            P = int(nrng.randint(1, 4))
+            a = stable_var(nrng, P, rho)
+            out.append(mk_case({'op': 'tf', 'P': P, 'nf': 64, 'a': aflat(a), 'zero': None}, 'transfer/near-unit-circle', cmp_groups('fcccc', rtol=1e-7)))
+        # --- L3 / L1: analyzer options: order selected by a criterion (max_order, criterion given), explicit order with a smaller
+        #     max_order, tiny grids, n_freqs default; integer / single-precision / non-contiguous recordings
+        specs = [dict(order=-1, maxo=6, crit='bic', nf=8), dict(order=-1, maxo=10, crit='aic', nf=9), dict(order=3, maxo=2, nf=16),
+                 dict(order=2, maxo=-1, nf=1), dict(order=1, nf=2), dict(order=2, nf=3), dict(order=1, nf=1024, nf_default=True),
+                 dict(order=2, nf=16, dt='int32'), dict(order=1, nf=9, dt='float32'), dict(order=2, nf=8, dt='strided'), dict(order=1, nf=8, dt='F'),
+                 dict(order=2, nf=8, dt='int16')]
+        for t, sp in enumerate(specs):
+            nproc = 2 + t % 2
+            data = sim_data(nrng, nproc, int(nrng.choice([128, 200]))) * 40.0
+            if sp.get('dt'):
+                data = ar_fam.prepare(data, sp['dt'])
+            m = dict({'op': 'ana', 'nproc': nproc, 'Fs': float(nrng.choice([1.0, 2.0, 250.0])), 'ij': None if t % 2 else [[0, 1], [1, 0]], 'data': aflat(data)}, **sp)
+            if sp['order'] < 0 and not selectable(m):
+                m.update(order=2)           # the criterion does not converge on this draw: a fixed-order analyzer instead
+            lp = ar_fam.tol_factor(sp.get('dt'))
+            out.append(mk_case(m, 'analyzer/options/%s' % ('selected' if sp['order'] < 0 else sp.get('dt') or ('nf%d' % sp['nf'])), cmp_groups('lll', rtol=1e-9 * lp)))
+    return out
+
+
+def selectable(m):
+    """does the criterion loop converge for every pair of this analyzer case (filter used while GENERATING cases only)"""
+    _, gr, _ = mods()
+    data = np.array(parse_flist(m['data'])).reshape(m['nproc'], -1)
+    n = m['nproc']
+    ij = [tuple(p) for p in m['ij']] if m['ij'] is not None else [(i, j) for j in range(n) for i in range(j)]
+    try:
+        for (i, j) in ij:
+            gr.fit_model(data[i], data[j], **fit_kw(m))
+        return True
+    except Exception:  # noqa
+        return False
+
+
+def perturb(nrng):
+    """L2 perturbation phase: the entry points with other option values, analyzers of the base class and of a subclass,
+    and everything that was handed out overwritten in place (a call that raises here is not this phase's business)"""
+    try:
+        _perturb(nrng)
+    except Exception:  # noqa
+        pass
+
+
+def _perturb(nrng):
+    import histories, warnings
+    warnings.simplefilter('ignore')
+    ar, gr, ts = mods()
+    held = []
+    a = stable_var(nrng, 2, 0.6)
+    cov = gen_cov(nrng, 'full')
+    for nf in (4, 7, 1024):
+        w, H = ar.transfer_function_xy(a, n_freqs=nf)
+        S = ar.spectral_matrix_xy(H, cov)
+        held += [w, H, S, ar.coherence_from_spectral(S), ar.interdependence_xy(S), ar.granger_causality_xy(a, cov, n_freqs=nf)]
+    x = sim_data(nrng, 3, 128)
+
+    class Sub(gr.GrangerAnalyzer):
+        pass
+    for cls in (gr.GrangerAnalyzer, Sub):
+        G = cls(ts.TimeSeries(x, sampling_rate=3.0), order=2, n_freqs=8, ij=[(0, 1), (2, 1)])
+        held += [G.causality_xy, G.causality_yx, G.simultaneous_causality, G.spectral_matrix, G.frequencies, G.model_coef, G.error_cov]
+        G.set_input(ts.TimeSeries(x[:2] * 2.0, sampling_rate=7.0))
+        G2 = cls(ts.TimeSeries(x, sampling_rate=1.0), max_order=5, n_freqs=4)
+        try:
+            held += [G2.causality_xy, G2.frequencies]
+        except ValueError:
+            pass
+    histories.scribble(held)
+
+
+def rerun_cases(nrng, sofar, big):
+    """L2: after all ordinary cases and the perturbation phase a sample of them is evaluated AGAIN on fresh objects: same
+    protocol line, so the implementation must return what the model returns, as before"""
+    perturb(nrng)
+    groups = {}
+    for c in sofar:
+        groups.setdefault((c.meta['op'], c.clause.split('/')[0]), []).append(c)
+    out = []
+    for key in sorted(groups):
+        lst = groups[key]
+        for c in lst[::max(1, len(lst) // (3 if not big else 12))][:3 if not big else 12]:
+            out.append(Case(c.line, run_impl(c.meta), c.clause + '/rerun', cmp=c.cmp, meta=c.meta, nontrivial=False))
     return out
 
 
